@@ -668,7 +668,7 @@ def gen_fz(r, over=False, quick=True):
         ops.append([kind, float(set_), float(fdb)])
         prev = 0.0 if kind > 2 else (set_ - fdb)
     d = {"k": "fz", "split": False, "nrule": n, "nfuzz": n, "opr": r.choice([0, 1, 2, 3, 3, 4, 5, 6, 6, 7, 100] if not over else [1, 2, 3, 6]),
-         "mask": r.choice([7, 7, 7, 7, 1, 2, 4, 5, 0]), "me": me, "mec": mec,
+         "mask": r.choice([7, 7, 7, 7, 1, 2, 4, 5, 0, 3, 6]), "me": me, "mec": mec,
          "mkp": [float(r.randint(-9, 9)) if r.random() < 0.5 else r.uniform(-3, 3) for _ in range(n * n)],
          "mki": [r.uniform(-0.5, 0.5) for _ in range(n * n)],
          "mkd": [r.uniform(-0.1, 0.1) for _ in range(n * n)],
@@ -779,6 +779,65 @@ def par_run_model(ctx, name, exprs):
     for pos, i in enumerate(order):
         out[i] = res[pos]
     return out
+
+
+def controller_part(ctx, scale=1.0):
+    """The fuzzy-tuned controller alone: a_pid_fuzzy_run/pos/inc/zero histories (kind "fz") through the bit-exact correspondence
+    (C vs the PrimFloat model of C13/FuzzyDefs.v, which calls the C12 step functions after the gain update) and through the
+    oracle fz_oracle (output inside the limits, state finite, gains = base + weighted mean of the active consequents, scratch
+    block).  Used by checks/C12.py, whose property names the fuzzy-tuned controller too; findings are reported through `ctx`."""
+    import os
+    srcs = ["mf.c", "fuzzy.c", "pid_fuzzy.c", "pid.c"]
+    c_sub = ctx.cc("fz_subst", [H / "drv.c", fcorr.LIBM_SUBST], repo_srcs=srcs, mode="num",
+                   extra=["-fsanitize=address"] + fcorr.WRAP_FLAGS)
+    c_lib = ctx.cc("fz_libm", [H / "drv.c"], repo_srcs=srcs, mode="num", extra=["-fsanitize=address"])
+    ok, outs, failed = ctx.coq_build(["C13/FuzzyShow.v"])
+    if not ok:
+        raise vlib.CheckError("model does not compile: %s" % failed)
+    os.environ.update({"ASAN_OPTIONS": "detect_leaks=0:abort_on_error=0:exitcode=23"})
+    r = ctx.rng.__class__(ctx.subseed("c13-controller"))
+    cases = [d for d in load_corpus() if d["k"] == "fz"]
+    ncorp = len(cases)
+    for i in range(int((200 if ctx.quick else 3000) * scale)):
+        cases.append(gen_fz(r, over=(i % 8 == 7), quick=ctx.quick))
+    lines = [c_line(d) for d in cases]
+    out_sub = par_run_c(c_sub, lines)
+    out_lib = par_run_c(c_lib, lines)
+    m_out = par_run_model(ctx, "fzcases", [coq_expr(d) for d in cases])
+    nd = 0
+    for i, d in enumerate(cases):
+        if out_sub[i] != m_out[i]:
+            nd += 1
+            if nd <= 3:
+                j = vlib.first_diff(out_sub[i], m_out[i])
+                ctx.tie_broken("correspondence fuzzy-tuned controller (bit-exact binary64, libm substituted): case #%d `%s`: output %s: "
+                               "C %s, model %s" % (i, lines[i][:90], j, out_sub[i][j:j + 3] if j is not None else "",
+                                                   m_out[i][j:j + 3] if j is not None else ""))
+
+    def c_eval(dd):
+        return [fcorr.fval(b) for b in fcorr.run_c(c_lib, [c_line(dd)])[0]]
+
+    reported = set()
+    masks = {}
+    for i, d in enumerate(cases):
+        masks[d["mask"]] = masks.get(d["mask"], 0) + 1
+        why = oracle(d, [fcorr.fval(b) for b in out_lib[i]])
+        if why:
+            key = "a_pid_fuzzy/" + ("scratch" if "sanitizer" in why else "layout" if "layout" in why else "limits" if "limits" in why
+                                    else "state" if "finite" in why else "gains")
+            if key in reported:
+                continue
+            reported.add(key)
+            d2 = shrink_fz(d, lambda c: oracle(c, c_eval(c)) is not None)
+            ctx.report(key, oracle(d2, c_eval(d2)) or why,
+                       {"case": enc(d2), "harness_line": c_line(d2), "c_output": out_lib[i][:40],
+                        "how": "echo '<harness_line>' | build/%s/fz_libm" % ctx.pid})
+    ctx.count(evaluations=len(cases))
+    ctx.cov["fuzzy_controller_cases"] = len(cases)
+    ctx.cov["fuzzy_controller_corpus_cases"] = ncorp
+    ctx.cov["fuzzy_controller_rule_base_masks"] = {str(k): v for k, v in sorted(masks.items())}
+    ctx.cov["fuzzy_controller_correspondence_mismatches"] = nd
+    return nd
 
 
 MF_NAMES = ["a_mf_gauss", "a_mf_gauss2", "a_mf_gbell", "a_mf_sig", "a_mf_dsig", "a_mf_psig", "a_mf_trap", "a_mf_tri", "a_mf_lins",
